@@ -398,6 +398,12 @@ func (q *TransmitLimitedQueue) Prune(maxRetain int) {
 	q.mu.Lock()
 	defer q.mu.Unlock()
 
+	// Nothing to prune if the queue was never used (or was reset): the tree
+	// is created lazily.
+	if q.tq == nil {
+		return
+	}
+
 	// Do nothing if queue size is less than the limit
 	for q.tq.Len() > maxRetain {
 		item := q.tq.Max()
